@@ -14,7 +14,7 @@ func init() {
 }
 
 func checkC08(w *World, r *Report) {
-	r.Decides = "C08 is decided in its structural part only: (a) format dispatch is a bijection: the header a recoverer writes selects that same recoverer on the receiving side, the type byte is written and read at the same offset, SaveSnapshot writes the header of the recoverer that saves and RecoverFromSnapshot dispatches on the header it read with the same byte order; (b) save reads the view prepared for it (prepare pins a snapshot / checkpoint, the savers do not touch the live DB, every pair and every file is written; flush precedes checkpoint); (c) install order and interruption (the obligations of C04.e) and the publish protocol of the current-directory file (C04.c: write, sync, rename, directory sync); (d) no closure that captures a Pebble handle flows into a value returned by the state machine's Lookup; (e) the recoverers take bytes off the snapshot stream only through readers that deliver exactly what was asked for (io.ReadFull, io.Copy of a limited reader, binary.Read, the tar reader) - never through one bare Read, which may return less."
+	r.Decides = "C08 is decided in its structural part only: (a) format dispatch is a bijection: the header a recoverer writes selects that same recoverer on the receiving side, the type byte is written and read at the same offset, SaveSnapshot writes the header of the recoverer that saves and RecoverFromSnapshot dispatches on the header it read with the same byte order; (b) save reads the view prepared for it (prepare pins a snapshot / checkpoint, the savers do not touch the live DB, every pair and every file is written; flush precedes checkpoint); (c) install order and interruption (the obligations of C04.e) and the publish protocol of the current-directory file (C04.c: write, sync, rename, directory sync); (d) no closure that captures a Pebble handle flows into a value returned by the state machine's Lookup; (e) the recoverers take bytes off the snapshot stream only through readers that deliver exactly what was asked for (io.ReadFull, io.Copy of a limited reader, binary.Read, the tar reader) - never through one bare Read, which may return less. Also: after the swap an install returns no error but the clean-up's; received files are complete when synced (f)."
 	r.NotDecided = []string{"byte-faithfulness of the SST / tar transfer", "outcomes of concurrent readers other than the escape of a handle", "crash interruption (see C04's caveat)"}
 	r.Assume = []string{"dragonboat excludes Lookup and RecoverFromSnapshot from each other only for the duration of the Lookup call itself"}
 	a := w.FsmAnchors()
@@ -29,6 +29,7 @@ func checkC08(w *World, r *Report) {
 	c04Publish(w, r, "C08.c2", "c2-publish-protocol")
 	c08Escape(w, r, a)
 	c08StreamReads(w, r, a)
+	c04FileWrites(w, r, "C08.f", "f-received-files-complete-when-synced")
 }
 
 func c08Dispatch(w *World, r *Report, a *FsmA, id, slug string) {
